@@ -11,9 +11,21 @@ CL = H + "Experimental::(anonymous namespace)::"
 SV = H + "(anonymous namespace)::"
 
 
-def stream_sequence(f):
-    """(kind, payload) for the stream insertions of a writer in evaluation order: ('lit', text) | ('crlf',) | ('write-header',) | ('expr', text)"""
+def stream_sequence(f, prog=None, depth=0):
+    """(kind, payload) for the stream insertions of a writer in evaluation order: ('lit', text) | ('crlf',) | ('write-header',) | ('expr', text).
+    With prog: calls of helpers / lambdas written in the same file are expanded in place (a writer split into `writeHeaderLine` etc.),
+    and a local `const char*` that is inserted contributes the string constants it is assigned in the function."""
     seq = []
+    strvals = {}
+    for d in f.events("decl"):
+        k = d.get("const")
+        if d.get("var") and isinstance(k, str) and k.startswith("s:"):
+            strvals.setdefault(d["var"], []).append(k[2:])
+    for a in f.events("assign"):
+        k = a.get("const")
+        v = (a.get("lhs") or {}).get("v")
+        if v and isinstance(k, str) and k.startswith("s:"):
+            strvals.setdefault(v, []).append(k[2:])
     # clang numbers CFG blocks from the exit upwards: descending block id, then position in the block, is source order
     for e in sorted(f.events("call"), key=lambda x: (-x.block, x.idx)):
         c = e.get("callee") or ""
@@ -27,10 +39,22 @@ def stream_sequence(f):
                     seq.append(("lit", chr(int(k[2:]))))
                 elif t.endswith("crlf"):
                     seq.append(("crlf",))
+                elif a.get("v") in strvals:
+                    for sv in strvals[a["v"]]:
+                        seq.append(("lit", sv))
                 else:
                     seq.append(("expr", t))
         elif c.endswith("::write") and (c.startswith(H + "Header::") or c == H + "Cookie::write"):
             seq.append(("write-header",))
+        elif prog is not None and depth < 3:
+            subs = []
+            if c in ("std::for_each",) or c.startswith("lambda@"):
+                lams = [a_.get("lam") for a_ in e.get("args", []) if a_.get("lam")]
+                subs = [lf for l_ in lams for lf in prog.lambda_by_id(l_.split("#in:")[0], f)] if lams else [g for g in prog.resolve_call(e) if g.blocks]
+            else:
+                subs = [g for g in prog.resolve_call(e) if g.blocks and g.file == f.file and not g.cls]
+            for g in subs[:1]:
+                seq += stream_sequence(g, prog, depth + 1)
     return seq
 
 
@@ -89,7 +113,7 @@ def run(ck):
     ck.ob("C02-R1", "table:Version", not probs and len(vw) >= 2, rq.loc, rq, "; ".join(probs[:3]) or "versions %s accepted by both line parsers%s" % (
         sorted(vw.values()), "" if all(l in rq_pairs for l in vw.values()) else " (reader is not an if-chain: literal/enumerator presence checked, pairing not)"))
     wr = lib.single(prog, CL + "writeRequest")
-    lits = [p_[1] for p_ in stream_sequence(wr) if p_[0] == "lit"]
+    lits = [p_[1] for p_ in stream_sequence(wr, prog) if p_[0] == "lit"]
     vlit = [l.strip() for l in lits if "HTTP/" in l]
     ck.ob("C02-R1", "client-request-line-version", bool(vlit) and all(v in rq_lits for v in vlit), wr.loc, wr, "client writes %s" % vlit)
 
@@ -104,7 +128,7 @@ def run(ck):
 
     # ---------------- R3 ----------------
     def header_line_ok(f):
-        seq = stream_sequence(f)
+        seq = stream_sequence(f, prog)
         # find ': ' literal followed by the value (write-header) followed by crlf
         for i, p_ in enumerate(seq):
             if p_ == ("lit", ": "):
@@ -142,14 +166,14 @@ def run(ck):
     spaces = [x for x in cc if x[1] == "c:32"]
     ck.ob("C02-R3", "reader:HeadersStep-splits-on-colon-space", bool(colon) and bool(spaces), hs.loc, hs, "name up to ':', spaces skipped, value up to CRLF")
     wc = lib.single(prog, CL + "writeCookies")
-    seq = [p_[1] for p_ in stream_sequence(wc) if p_[0] == "lit"]
+    seq = [p_[1] for p_ in stream_sequence(wc, prog) if p_[0] == "lit"]
     afr = lib.single(prog, H + "CookieJar::addFromRaw")
     seps = {a.get("const") for e in afr.calls(lambda e: (e.get("callee") or "") == "Pistache::match_until") for a in e.get("args", [])[:1]}
     skip = any((e.get("callee") or "") == "Pistache::skip_whitespaces" for e in afr.events("call"))
     ok = "Cookie: " in seq and "; " in seq and "=" in seq and "c:61" in seps and "c:59" in seps and skip
     ck.ob("C02-R3", "request-cookies:join-vs-split", ok, wc.loc, wc, "client joins with %s; server splits on %s and skips blanks=%s" % (sorted(set(seq)), sorted(x for x in seps if x), skip))
     sc = lib.single(prog, SV + "writeCookies")
-    seq = [p_[1] for p_ in stream_sequence(sc) if p_[0] == "lit"]
+    seq = [p_[1] for p_ in stream_sequence(sc, prog) if p_[0] == "lit"]
     rd = any((e.get("callee") or "") == H + "Cookie::fromRaw" for e in hs.events("call")) and \
         any(a.get("const") == "s:set-cookie" or "set-cookie" in (a.get("t") or "") for e in hs.calls(lambda e: (e.get("callee") or "") == H + "Header::LowercaseEqualStatic") for a in e.get("args", []))
     ck.ob("C02-R3", "response-cookies:Set-Cookie-line-vs-fromRaw", "Set-Cookie: " in seq and rd, sc.loc, sc, "one 'Set-Cookie: ' line per cookie; parser hands 'set-cookie' values to Cookie::fromRaw")
